@@ -136,3 +136,74 @@ contract(M, 'pda_find_transition', {'P': 'PDA', 'R': SC, 'a': 'Symbol', 'target'
                                                   'all(implies(canpop(P, src.stack, u), PDAState(t[0], poppush(P, src.stack, u, t[1])) != target) for t in doneT)']}},
          theories=['pda'], props=['C15', 'C19'],
          note='a configuration of R with the required move into the target, or None when there is none')
+
+contract(M, 'fresh_symbol', {'Sigma': 'Set[Symbol]', 'symbols': 'Atom'}, returns='Symbol', ensures=['result not in Sigma'],
+         loops={1: {'invariant': []}}, theories=[], props=['C10'],
+         note='first element of the preferred characters followed by an unbounded character supply that is not in Sigma: whatever is returned is not in Sigma (proved); '
+              'that the supply is not exhausted first (chr() range) is assumption A-char-supply')
+
+# accept only with an empty stack: exact structure of the in-place construction (language statement: bounded stand-in)
+_E_OLD = 't in lookup(old(P.delta), (p, a, u))'
+_E_INIT = '(p == %(qi)s and a == %(e)s and u == %(e)s and t == (old(P.q0), %(sb)s))'
+_E_ACC = '(p in %(F)s and a == %(e)s and u == %(sb)s and t == (%(qa)s, %(e)s))'
+_E_DRAIN = '(p in %(F)s and a == %(e)s and u in %(G)s and t == (%(qd)s, %(e)s))'
+_E_LOOP = '(p == %(qd)s and a == %(e)s and u in %(G2)s and t == (%(qd)s, %(e)s))'
+_E_LAST = '(p == %(qd)s and a == %(e)s and u == %(sb)s and t == (%(qa)s, %(e)s))'
+def _edges(parts, **kw):
+    return 'all((t in lookup(P.delta, (p, a, u))) == (' + ' or '.join([_E_OLD] + [x % kw for x in parts]) + ') for p in atoms() for a in atoms() for u in atoms() for t in pairs())'
+_LOC = dict(qi='q_initial', qd='q_drain', qa='q_accept', sb='stack_bottom', e='epsilon')
+_E_COMMON = ['P.Sigma == old(P.Sigma)', 'P.epsilon == old(P.epsilon)', 'epsilon == P.epsilon', 'q0 == old(P.q0)', 'P.q0 == q_initial', 'P.F == old(P.F)',
+             'stack_bottom not in old(P.Gamma)', 'stack_bottom != epsilon', 'P.Gamma == old(P.Gamma) | {stack_bottom}',
+             'q_initial not in old(P.Q)', 'q_drain not in old(P.Q)', 'q_accept not in old(P.Q)', 'q_drain != q_initial', 'q_accept != q_initial', 'q_accept != q_drain',
+             'P.Q == old(P.Q) | {q_initial} | {q_drain} | {q_accept}']
+_E_FINAL = dict(qi='qi', qd='qd', qa='qa', sb='sb', e='P.epsilon', F='old(P.F)', G='old(P.Gamma)', G2='old(P.Gamma)')
+_ES_POST = ['P.Sigma == old(P.Sigma)', 'P.epsilon == old(P.epsilon)',
+            'any(sb not in old(P.Gamma) and sb != P.epsilon and P.Gamma == old(P.Gamma) | {sb} and '
+            'qi not in old(P.Q) and qd not in old(P.Q) and qa not in old(P.Q) and qi != qd and qi != qa and qd != qa and P.Q == old(P.Q) | {qi} | {qd} | {qa} and '
+            'P.q0 == qi and P.F == {qa} and ' + _edges([_E_INIT, _E_ACC, _E_DRAIN, _E_LOOP, _E_LAST], **_E_FINAL) +
+            ' for sb in atoms() for qi in atoms() for qd in atoms() for qa in atoms())']
+contract(M, 'pda_to_accept_on_empty_stack_in_place', {'P': 'PDA'}, returns='None', modifies=['P'], type_invariants=['fin(P.Q)'],
+         ensures=_ES_POST,
+         loops={1: {'ghost': 'doneF', 'invariant': _E_COMMON + [_edges([_E_INIT, _E_ACC, _E_DRAIN], F='doneF', G='old(P.Gamma)', **_LOC)]},
+                2: {'ghost': 'doneX', 'invariant': _E_COMMON + ['q in old(P.F)', 'q not in doneF', _edges([_E_INIT, _E_ACC, _E_DRAIN, '(p == q and a == %(e)s and u == %(sb)s and t == (%(qa)s, %(e)s))',
+                                                                                                           '(p == q and a == %(e)s and u in doneX and t == (%(qd)s, %(e)s))'], F='doneF', G='old(P.Gamma)', **_LOC)]},
+                3: {'ghost': 'doneY', 'invariant': _E_COMMON + [_edges([_E_INIT, _E_ACC, _E_DRAIN, _E_LOOP], F='old(P.F)', G='old(P.Gamma)', G2='doneY', **_LOC)]}},
+         pre_return_asserts={'end': ['stack_bottom not in old(P.Gamma) and stack_bottom != P.epsilon and P.Gamma == old(P.Gamma) | {stack_bottom}',
+                                     'P.Q == old(P.Q) | {q_initial} | {q_drain} | {q_accept} and P.q0 == q_initial and P.F == {q_accept}',
+                                     _edges([_E_INIT, _E_ACC, _E_DRAIN, _E_LOOP, _E_LAST], **dict(_E_FINAL, qi='q_initial', qd='q_drain', qa='q_accept', sb='stack_bottom'))]},
+         theories=['naming'], props=['C10'],
+         note='exact structure: a new stack symbol is pushed from a new initial state; every old accepting state can pop the marker into the new (only) accepting state or start draining into q_drain, '
+              'which pops every old stack symbol and finally the marker; all old transitions, the input alphabet and epsilon are unchanged.  That this preserves the language is decided by the bounded stand-in')
+
+import re as _re
+def _on_result(x):
+    # the wrapper works on a deep copy: the same statement with the result in the role of the modified automaton and the argument in the role of the old one
+    x = _re.sub(r'old\(P\.(\w+)\)', r'OLDP.\1', x)
+    x = x.replace('P.', 'result.').replace('OLDresult.', 'old(P).')
+    return x
+contract(M, 'pda_to_accept_on_empty_stack', {'P': 'PDA'}, returns='PDA', type_invariants=['fin(P.Q)'], ensures=[_on_result(x) for x in _ES_POST],
+         theories=['naming'], props=['C10', 'C19'], note='the in-place construction on a deep copy: same structure statement about the result; the argument is not modified (frame obligation)')
+
+# push/pop format: the clause of the property that the result really has only push or pop moves (language statement: bounded stand-in)
+contract('gambatools.pda', 'PDA.is_push_pop_transition', {'self': 'PDA', 'p': 'State', 'a': 'Symbol', 'u': 'Symbol', 'q': 'State', 'v': 'Symbol'}, returns='Bool',
+         ensures=['result == ((u == self.epsilon) != (v == self.epsilon))'], theories=[], props=['C10'])
+_PP_OK = 'all(implies(t in lookup(%s, (p, a, u)), (u == %s) != (t[1] == %s)) for p in atoms() for a in atoms() for u in atoms() for t in pairs())'
+_PP_INV = ['epsilon == old(P.epsilon)', 'P.epsilon == old(P.epsilon)', 'P.Sigma == old(P.Sigma)', 'P.delta == d0', 'P.F == f0', 'P.q0 == old(P.q0)', 'old(P.Q) <= P.Q',
+           'dummy != epsilon', 'dummy not in old(P.Gamma)', 'P.Gamma == old(P.Gamma) | {dummy}', _PP_OK % ('delta1', 'epsilon', 'epsilon')]
+contract(M, 'pda_to_push_pop_in_place', {'P': 'PDA'}, returns='None', modifies=['P'], requires=['pda_cfg_ok(P)', 'P.epsilon not in P.Sigma'], type_invariants=['fin(P.Q)'],
+         ensures=['P.epsilon == old(P.epsilon)', 'P.Sigma == old(P.Sigma)', 'P.q0 == old(P.q0)', 'old(P.Q) <= P.Q',
+                  'any(dm not in old(P.Gamma) and dm != P.epsilon and P.Gamma == old(P.Gamma) | {dm} for dm in atoms())',
+                  _PP_OK % ('P.delta', 'P.epsilon', 'P.epsilon')],
+         types={'delta1': 'Map[(State,Symbol,Symbol),Set[(State,Symbol)],default=set]'},
+         loops={1: {'ghost': 'doneK', 'entry_snapshot': {'d0': 'P.delta', 'f0': 'P.F'}, 'invariant': _PP_INV},
+                2: {'ghost': 'doneT', 'invariant': _PP_INV}},
+         theories=['naming', 'word', 'pda', 'pdax'], props=['C10'],
+         note='every transition of the result either pushes or pops (never both, never neither); a new stack symbol is added, old states are kept, input alphabet, epsilon and initial state are unchanged. '
+              'Language preservation of the splitting through intermediate states is decided by the bounded stand-in')
+contract(M, 'pda_to_push_pop', {'P': 'PDA'}, returns='PDA', requires=['pda_cfg_ok(P)', 'P.epsilon not in P.Sigma'], type_invariants=['fin(P.Q)'],
+         ensures=['result.epsilon == old(P).epsilon', 'result.Sigma == old(P).Sigma', 'result.q0 == old(P).q0', 'old(P).Q <= result.Q',       # the body rebinds the name P
+                  'any(dm not in old(P).Gamma and dm != old(P).epsilon and result.Gamma == old(P).Gamma | {dm} for dm in atoms())',
+                  _PP_OK % ('result.delta', 'old(P).epsilon', 'old(P).epsilon')],
+         theories=['naming', 'word', 'pda', 'pdax'], props=['C10', 'C19'], note='the in-place construction on a deep copy; the argument is not modified (frame obligation)')
+contract(M, 'pda_is_push_pop', {'P': 'PDA'}, returns='Bool', ensures=['result == ' + (_PP_OK % ('P.delta', 'P.epsilon', 'P.epsilon'))], theories=[], props=['C10'],
+         note='the recogniser used by the tests and the documentation: true exactly when every transition pushes or pops')
